@@ -306,14 +306,14 @@ func (a *Analysis) checkCyclePath(err error) {
 			}
 		}
 		for _, d := range r.Deps {
-			if d.Ignore || d.Builtin != BNone {
+			if d.Ignore {
 				continue
 			}
 			var key any
 			if d.Key != "" {
 				key = d.Key
 			}
-			to := nk{d.T.RT(), key, d.Group}
+			to := nk{depElemType(d), key, d.Group}
 			for _, f := range froms {
 				addEdge(f, to)
 			}
@@ -345,6 +345,13 @@ func (a *Analysis) checkCyclePath(err error) {
 			return
 		}
 	}
+}
+
+func depElemType(d Dep) reflect.Type {
+	if d.Builtin != BNone {
+		return depType(d)
+	}
+	return d.T.RT()
 }
 
 type godi_NodeKey struct {
@@ -485,6 +492,9 @@ func (a *Analysis) ruleErrors() {
 		// is the failing registration required (non-optional path) for the op? We
 		// only assert when the op itself failed; swallowed failures are judged by C15.optional.
 		if op.Err == nil {
+			if f.Kind == FCtorNil {
+				continue // a nil result without error: the statement does not say; both outcomes accepted
+			}
 			if !a.optionalOnPath(inv) {
 				a.add("C15", "C15.ctorError", "swallowed/"+faultNames[f.Kind], "op%d %s succeeded although constructor r%d#%d failed (%s)", op.GID, op.Op, inv.Reg, inv.N, faultNames[f.Kind])
 			}
